@@ -124,8 +124,11 @@ def lm_stream(ctx, hexe, dexe, n_cases, size, want=("oracle", "struct", "spec"),
             ctx.hist("lm.fanout.buckets_spanned_min", case.meta["buckets_spanned_min"])
             ctx.cov["fanout_max_buckets_spanned"] = max(ctx.cov.get("fanout_max_buckets_spanned", 0), case.meta["buckets_spanned_min"])
         path = lmq.write_case(case, work, "c%d" % ci)
-        ops = lmq.make_ops(path, case)
-        (rc1, o1, e1), (rc2, o2, e2) = lmq.run_both(hexe, dexe, ops)
+        ops = lmq.make_ops(path, case, extra=" buckets=" + ",".join(map(str, lmq.bucket_counts(case))))
+        ekeys = lmq.enum_keys(case, ctx.rng, 250 if ctx.tier == "quick" else 1000) if case.meta["kind"] != "equalmult" else []
+        nq = len(ops)
+        ops_all = ops + ["e " + " ".join(k) for k in ekeys]
+        (rc1, o1, e1), (rc2, o2, e2) = lmq.run_both(hexe, dexe, ops_all)
         for k, v in case.meta.items():
             if k in ("order", "kind", "unk", "crlf", "closed", "bitbound"):
                 ctx.hist("lm." + k, v)
@@ -159,6 +162,19 @@ def lm_stream(ctx, hexe, dexe, n_cases, size, want=("oracle", "struct", "spec"),
                         "query": case.queries[0], "impl": o1[1][:300] if len(o1) > 1 else None})
         if bb and os.path.exists(bb) and not st.get("skipped"):
             found = binary_round_trip(ctx, case, path, ops, o2, hexe, bb, work, ci, want, tag) or found
+        if not st.get("skipped") and len(o1) == len(ops_all) and len(o2) == len(ops_all):
+            eprobs, ne = lmq.compare_enum(case, ekeys, o1[0], st.get("info", {}), o1[nq:], o2[nq:])
+            ctx.count((tag, "enum", case.arpa), nontrivial=ne > 0, n=ne)
+            ctx.hist("lm.enum_entries", min(ne, 2000) // 100 * 100)
+            ctx.hist("lm.represents_runtime", st.get("info", {}).get("prep"))
+            if eprobs:
+                p = eprobs[0]
+                ctx.violation("probing-structure: %s entry %s differs between the built structure and the model of the builder (%s)" %
+                              (lmq.NAMES.get(p.get("cls"), "?"), " ".join(p.get("key", [])), p["kind"]),
+                              {"stream": "probing-structure", "first_problem": p, "n_problems": len(eprobs),
+                               "arpa": case.arpa.decode("utf-8", "replace"), "options": {"mult": case.mult,
+                               "buckets": lmq.bucket_counts(case)}, "meta": case.meta})
+                found = True
         known = [p for p in probs if p.get("known_key")]
         probs = [p for p in probs if not p.get("known_key")]
         for p in known[:1]:
